@@ -705,6 +705,18 @@ func (env *Env) callFunc(fobj *types.Func, recv *Val, args []Val, st *State, cal
 			if fi.Obj == nil {
 				fi.Obj = fobj
 			}
+			// an interface method reached through embedding (storage.File embeds io.Writer): the
+			// ghost fields of the declaring interface are not defined on the embedding one, so
+			// its contract does not apply - the call stays an unspecified callee (listed)
+			if sg, ok := fobj.Type().(*types.Signature); ok && sg.Recv() != nil && recv != nil && recv.Ty != nil {
+				if _, isIf := types.Unalias(sg.Recv().Type()).Underlying().(*types.Interface); isIf {
+					if ds, rs := env.sortOf(sg.Recv().Type()), env.sortOf(recv.Ty); ds != rs && strings.HasPrefix(rs, "If_") {
+						if ts := c.e.typeSpecForSort(ds); ts != nil && len(ts.GhostFields) > 0 {
+							fi = nil
+						}
+					}
+				}
+			}
 		}
 	}
 	if fi != nil && fi.Ghost && fi.Decl != nil {
@@ -852,6 +864,19 @@ func (env *Env) typeSubstFor(fi *FuncInfo, recv *Val, args []Val) map[*types.Typ
 		unify(sig.Recv().Type(), recv.Ty)
 	}
 	for i, a := range args {
+		if sig.Variadic() && i >= sig.Params().Len()-1 {
+			// f(a, b, c) against f(xs ...T): unify the element type unless the call spreads a slice
+			vt := sig.Params().At(sig.Params().Len() - 1).Type()
+			if a.Ty != nil {
+				if _, isSl := types.Unalias(env.subst(a.Ty)).Underlying().(*types.Slice); isSl && len(args) == sig.Params().Len() {
+					unify(vt, a.Ty)
+				}
+			}
+			if sl, ok := vt.(*types.Slice); ok {
+				unify(sl.Elem(), a.Ty)
+			}
+			continue
+		}
 		if i < sig.Params().Len() {
 			unify(sig.Params().At(i).Type(), a.Ty)
 		}
